@@ -16,7 +16,8 @@ import (
 // (POSIX rules, written below) and parses the result without aliases.
 
 var aliasValuesA = []string{"z", "z w", "z ", "b", "b ", "a", "a x", "z ; b", "z | b", "v=1 z", "z >f", "! z", "{ z ; }", "if z ; then w ; fi"}
-var aliasValuesB = []string{"t", "t ", "a", "a ", "b", "t u"}
+var aliasValuesB = []string{"t", "t ", "a", "a ", "b", "t u", "t c", "c c"}
+var aliasValuesC = []string{"k", "k j "}
 
 func isCmdStarter(tok string) bool {
 	switch tok {
@@ -54,7 +55,7 @@ func contains(set []string, s string) bool {
 	return false
 }
 
-type aliasTable struct{ a, b string }
+type aliasTable struct{ a, b, c string }
 
 func (t aliasTable) get(name string) (string, bool) {
 	switch name {
@@ -62,6 +63,10 @@ func (t aliasTable) get(name string) (string, bool) {
 		return t.a, true
 	case "b":
 		return t.b, true
+	case "c":
+		if t.c != "" {
+			return t.c, true
+		}
 	}
 	return "", false
 }
@@ -162,9 +167,9 @@ func C17_Sym() {
 }
 
 func c17Fold(maxCmds int) {
-	tbl := aliasTable{a: aliasValuesA[nd.Choice(len(aliasValuesA))], b: aliasValuesB[nd.Choice(len(aliasValuesB))]}
+	tbl := aliasTable{a: aliasValuesA[nd.Choice(len(aliasValuesA))], b: aliasValuesB[nd.Choice(len(aliasValuesB))], c: aliasValuesC[nd.Choice(len(aliasValuesC))]}
 	cmdWords := []string{"x", "a", "b", "'a'", "\\a", "v=2"}
-	argWords := []string{"y", "a", "b"}
+	argWords := []string{"y", "a", "c"}
 	seps := []string{";", "|", "\n"}
 	var toks []string
 	n := 1 + nd.Choice(maxCmds)
@@ -204,11 +209,12 @@ func c17Fold(maxCmds int) {
 	rest, _ := unfold(toks[start:], tbl, nil, true)
 	unf = append(unf, rest...)
 	unfolded := joinTokens(unf)
-	nd.Observe("a='" + tbl.a + "' b='" + tbl.b + "' :: " + folded + " => " + unfolded)
+	nd.Observe("a='" + tbl.a + "' b='" + tbl.b + "' c='" + tbl.c + "' :: " + folded + " => " + unfolded)
 
 	env := interp.NewExecEnv("sh")
 	env.Aliases["a"] = tbl.a
 	env.Aliases["b"] = tbl.b
+	env.Aliases["c"] = tbl.c
 	s1 := NewScanner([]rune(folded + "\n"))
 	got, err1 := parseAllEnv(env, s1)
 	s2 := NewScanner([]rune(unfolded + "\n"))
